@@ -155,6 +155,8 @@ pub fn run(out: &mut Out, thorough: bool, seed: u64, _extra: &[String]) {
         }
     }
     high_degree(out, &mut r, kmax, thorough);
+    crate::galplain::run_batched(out, &mut r, thorough);
+    crate::galplain::run_tool_wrappers(out, &mut r, if thorough { 90 } else { 18 });
 }
 
 fn mulm(a: u64, b: u64, q: u64) -> u64 { ((a as u128 * b as u128) % q as u128) as u64 }
